@@ -160,6 +160,13 @@ func (c *Ctx) resolvePair(fn *ssa.Function, a, b ssa.Value, depth int) (pairs []
 	if (!oka && !isPa) || (!okb && !isPb) {
 		return nil, "", false
 	}
+	// strip() follows the parameters of single-caller helpers to their
+	// caller's arguments: the values may then live in that caller's frame
+	for _, q := range []*ssa.Parameter{pa, pb} {
+		if q != nil && q.Parent() != nil && q.Parent() != fn {
+			fn = q.Parent()
+		}
+	}
 	idx := func(p *ssa.Parameter) int {
 		for i, q := range fn.Params {
 			if q == p {
@@ -283,7 +290,7 @@ func (c *Ctx) resolveRPC() {
 			if s, ok := constString(args[pos[0]]); ok && s == "" && !strings.HasPrefix(kind, "Multi") {
 				site.Local = true
 			}
-			pairs, via, ok := c.resolvePair(f, args[pos[1]], args[pos[1]+1], 3)
+			pairs, via, ok := c.resolvePair(f, args[pos[1]], args[pos[1]+1], 5)
 			if ok && via != "constants" {
 				c.rpcParam[ci] = true
 				c.ctxFns[f] = true
